@@ -465,10 +465,19 @@ func genSessCase(rng *rand.Rand, i int) sessCase {
 		flap = 0
 	}
 	// optional second internal peer with its own cluster id
+	sameCID := -1
 	if rng.IntN(3) == 0 {
 		p3 := sPeer{Kind: []string{"rr-client", "ibgp"}[rng.IntN(2)], LocalAS: L, PeerAS: L, AdvRole: -1, Import: imp()}
 		if p3.Kind == "rr-client" {
 			p3.ClusterID = 0x0c0c0c00 + uint32(rng.IntN(9))
+		} else if p0.Kind == "rr-client" && rng.IntN(2) == 0 {
+			// a group level cluster id: the non-client carries the client's cluster id in its configuration, but
+			// only the client's session makes it local; the non-client is the one that goes down and comes back
+			p3.ClusterID = p0.ClusterID
+			if p3.ClusterID == 0 {
+				p3.ClusterID = c.RouterID
+			}
+			sameCID = len(c.Peers)
 		}
 		c.Peers = append(c.Peers, p3)
 	}
@@ -494,6 +503,9 @@ func genSessCase(rng *rand.Rand, i int) sessCase {
 		}
 	} else if flap == 2 && rng.IntN(4) == 0 {
 		flapSet = []int{rng.IntN(2)}
+	}
+	if sameCID >= 0 {
+		flapSet = []int{sameCID}
 	}
 	inFlap := func(pi int) bool {
 		for _, x := range flapSet {
@@ -1165,7 +1177,7 @@ func keysS(m map[string]bool) []string {
 // ---------------------------------------------------------------------------------------------
 // driver (called from main)
 
-const sessionRule = " || session half: one real bio-rd BGP server per case (random router id, local AS L) with 2-5 passive peers over in-memory connections — iBGP or route reflector client (own cluster id, or none = router id), eBGP under L, mostly a second eBGP peer under a DIFFERENT local AS L2 (2- or 4-octet), sometimes a second internal peer with another cluster id, every fourth case an eBGP peer with one of the 20 forbidden RFC 9234 role pairs (or strict mode without a role) that bio-rd must refuse; the established eBGP peers cycle through the 5 complementary role pairs, 5 × 'no role from the peer', roles off; IPv4 and (a third of the peers) IPv6. Script of 40-70 steps: establish, announce (1-2 NLRI per UPDATE, unique id community; about a third ineligible by one reason: a currently local ASN in an AS_SEQUENCE or AS_SET, ORIGINATOR_ID = router id, a currently local cluster id in CLUSTER_LIST, OTC from a customer / RS client / from a peer with a foreign AS, empty AS_PATH over eBGP; look-alikes that are eligible: the ASN / cluster id of a session that is down, foreign ORIGINATOR_ID, OTC the role pair allows), withdraw, import policy replaced through BGPServer.ReplaceImportFilterChain in bursts containing reject->accept, a peer taken down by NOTIFICATION and established again, one peer established late. After every step (Session.Sync for UPDATEs) both Loc-RIB dumps, the Adj-RIB-Out dumps of every established session and the UPDATEs bio-rd wrote are searched for ids judged ineligible when they were sent. distinct_nontrivial (keys session-N) = cases with >= 2 different ineligibility reasons, a policy replacement on a peer holding ineligible paths, a late or repeated establishment, and eligible paths seen in the Loc-RIB"
+const sessionRule = " || session half: one real bio-rd BGP server per case (random router id, local AS L) with 2-5 passive peers over in-memory connections — iBGP or route reflector client (own cluster id, or none = router id), eBGP under L, mostly a second eBGP peer under a DIFFERENT local AS L2 (2- or 4-octet), sometimes a second internal peer with another cluster id or a non-client configured with the client's cluster id (which then is the peer that flaps), every fourth case an eBGP peer with one of the 20 forbidden RFC 9234 role pairs (or strict mode without a role) that bio-rd must refuse; the established eBGP peers cycle through the 5 complementary role pairs, 5 × 'no role from the peer', roles off; IPv4 and (a third of the peers) IPv6. Script of 40-70 steps: establish, announce (1-2 NLRI per UPDATE, unique id community; about a third ineligible by one reason: a currently local ASN in an AS_SEQUENCE or AS_SET, ORIGINATOR_ID = router id, a currently local cluster id in CLUSTER_LIST, OTC from a customer / RS client / from a peer with a foreign AS, empty AS_PATH over eBGP; look-alikes that are eligible: the ASN / cluster id of a session that is down, foreign ORIGINATOR_ID, OTC the role pair allows), withdraw, import policy replaced through BGPServer.ReplaceImportFilterChain in bursts containing reject->accept, a peer taken down by NOTIFICATION and established again, one peer established late. After every step (Session.Sync for UPDATEs) both Loc-RIB dumps, the Adj-RIB-Out dumps of every established session and the UPDATEs bio-rd wrote are searched for ids judged ineligible when they were sent. distinct_nontrivial (keys session-N) = cases with >= 2 different ineligibility reasons, a policy replacement on a peer holding ineligible paths, a late or repeated establishment, and eligible paths seen in the Loc-RIB"
 
 func sessionAssumptions(r *vf.Run) {
 	r.Assume("session half: a path is judged against the local ASNs / cluster ids derived from the CONFIGURATION of the sessions the harness holds Established at the moment the UPDATE is sent (never from the VRF's own state)",
